@@ -53,7 +53,7 @@ def runCase (payload : String) : String :=
   let ifin := run (idSys true) ⟨fun _ => 0, fun t => { todo := 3 + (seed + t) % 5 }⟩ sched
   let allIds := (List.range g).flatMap fun t => (ifin.locals t).ids
   let dup := allIds.length - allIds.eraseDups.length
-  toString mism.length ++ " " ++ toString dup ++ (if g ≥ 2 ∧ field fs "n" ≥ 10 then "\tnt=1" else "")
+  toString mism.length ++ " " ++ toString dup ++ (if (g ≥ 2 ∨ fs.contains "mode=poison") ∧ field fs "n" ≥ 10 then "\tnt=1" else "")
 
 def run (_args : List String) : IO Unit := lineLoop runCase
 end Ecal.Drv.C13
